@@ -116,10 +116,11 @@ def one_dialect(b, dname, engine, model_cls, ops, case, frames, full=True):
             union_order = ("should come after UNION ALL" in msg) and ("concat_rows" in B.op_sequence(case["recipe"])) \
                 and ("order_rows" in B.op_sequence(case["recipe"]))
             if dname == "postgresql" and not (err or "").startswith("to_sql") and not (base_err or "").startswith("to_sql") \
-                    and any(t in msg for t in ("ON clause references tables to its right", "clause should come after UNION")):
-                # the text was generated; only the SQLite *surrogate* refused to run one of the variants (e.g. a
-                # parenthesised UNION member with its own ORDER BY/LIMIT, or "ON clause references tables to its
-                # right" for nested RIGHT JOINs, both fine on PostgreSQL): excluded and counted, not judged
+                    and any(t in msg for t in ("ON clause references tables to its right",)):
+                # the text was generated; only the SQLite *surrogate* refused to run one of the variants ("ON clause
+                # references tables to its right" for nested RIGHT JOINs, fine on PostgreSQL): excluded and counted,
+                # not judged.  (An ORDER BY inside a UNION member was excluded here too until it turned out to be the
+                # repository's defect in both dialects - repaired, and judged since.)
                 b.count("excluded_surrogate_cannot_run_variant", dname)
                 return None
             if any(t in msg for t in ("parser stack overflow", "too large", "too many", "at most")):
